@@ -477,14 +477,18 @@ func bq(s string) string {
 
 func renderRule(d RuleDesc) string {
 	var sb strings.Builder
-	sb.WriteString("package gorules\n\nimport \"github.com/quasilyte/go-ruleguard/dsl\"\n\nconst (\n\tcA = \"a\"\n\tcB = \"b\"\n\tc4 = 4\n\tc8 = 8\n)\n\n")
-	for _, a := range d.Atoms {
-		if a.Decl {
-			sb.WriteString("func flt(ctx *dsl.VarFilterContext) bool { return true }\n\n")
-			break
-		}
+	sb.WriteString(dslPrelude)
+	if needsFlt(d) {
+		sb.WriteString("func flt(ctx *dsl.VarFilterContext) bool { return true }\n\n")
 	}
-	sb.WriteString("func g(m dsl.Matcher) {\n\tm.")
+	sb.WriteString("func g(m dsl.Matcher) {\n" + renderStmt(d) + "\n}\n")
+	return sb.String()
+}
+
+// renderStmt: the statement of the rule (no newline at the end)
+func renderStmt(d RuleDesc) string {
+	var sb strings.Builder
+	sb.WriteString("\tm.")
 	var alts []string
 	for _, a := range d.Alts {
 		alts = append(alts, bq(a.Src))
@@ -504,8 +508,15 @@ func renderRule(d RuleDesc) string {
 	if d.Suggest != "" {
 		sb.WriteString(".\n\t\tSuggest(" + bq(d.Suggest) + ")")
 	}
-	sb.WriteString("\n}\n")
 	return sb.String()
+}
+
+func mustRegexp(s string) *regexp.Regexp {
+	re, err := regexp.Compile(s)
+	if err != nil {
+		return nil
+	}
+	return re
 }
 
 // ------------------------------------------------------------------ stream "notdsl"
@@ -801,6 +812,9 @@ type Case struct {
 	IRDiff string `json:"ir_diff,omitempty"`
 	// hist: the Loads of the history, in order; Obs is the first one that violates the property (else the last one)
 	Steps []HistStep `json:"steps,omitempty"`
+	// group: the rules of every group, and what Load answers to each rule when it stands alone
+	Groups []GroupDesc `json:"groups,omitempty"`
+	Alone  [][]Obs     `json:"alone,omitempty"`
 }
 
 // Begin announces a case before it is loaded: if the process dies, the supervisor knows which input did it.
@@ -826,7 +840,8 @@ func main() {
 	tmp := flag.String("tmp", "", "scratch directory")
 	nhist := flag.Int("hist", 60, "random cases of stream hist (the systematic ones are always run)")
 	nfn := flag.Int("fn", 30, "random cases of stream fn (the catalogues are always run)")
-	streams := flag.String("streams", "fn,chain,bytes,notdsl,dsl,hist,struct", "the streams to run (the check runs two halves side by side)")
+	ngroup := flag.Int("group", 40, "generated cases of stream group (the catalogue is always run)")
+	streams := flag.String("streams", "fn,chain,bytes,notdsl,dsl,hist,struct,group", "the streams to run (the check runs two halves side by side)")
 	one := flag.String("one", "", "development: load the rules files of this comma-separated list only (a file may hold several, separated by a line -----)")
 	ops := flag.String("ops", "", "the regenerated filter-op table (go2coq optable)")
 	child := flag.Bool("child", false, "internal: generate and load (run by the supervisor)")
@@ -842,7 +857,7 @@ func main() {
 	for _, st := range strings.Split(*streams, ",") {
 		want[st] = true
 	}
-	streamIdx := map[string]int{"fn": 0, "chain": 1, "bytes": 2, "notdsl": 3, "dsl": 4, "hist": 5, "struct": 6}
+	streamIdx := map[string]int{"fn": 0, "chain": 1, "bytes": 2, "notdsl": 3, "dsl": 4, "hist": 5, "struct": 6, "group": 7}
 	var rng *rand.Rand
 	id := 0
 	enter := func(stream string) bool {
@@ -1056,6 +1071,34 @@ func main() {
 		}
 		runIt(&c, e)
 		emit(c, true)
+	}
+	// ---- group: several rules per group, several groups: the catalogue, then generated files
+	if enter("group") {
+		files, err := groupCatalogue(*seed)
+		if err != nil {
+			fmt.Fprintln(os.Stderr, "c06:", err)
+			os.Exit(3)
+		}
+		files = append(files, groupRandom(rng, t.Fset, *ngroup)...)
+		for _, f := range files {
+			src, spans := renderGroups(f.groups)
+			if !begin("group", src) {
+				continue
+			}
+			c := Case{Stream: "group", ID: id, Src: src, What: f.what, Groups: f.groups}
+			var e *ruleguard.Engine
+			e, c.Obs = loadObs(t.Fset, []byte(src))
+			for _, g := range f.groups {
+				var al []Obs
+				for _, d := range g.Rules {
+					al = append(al, aloneObs(t.Fset, g, d))
+				}
+				c.Alone = append(c.Alone, al)
+			}
+			c.Span = groupSpanProblem(c.Obs, spans, c.Alone)
+			runIt(&c, e)
+			emit(c, true)
+		}
 	}
 	// ---- hist
 	nbad := nSystematic()
